@@ -194,6 +194,11 @@ func init() {
 		}
 		r.ExploreSpecs(specs)
 		r.ExploreSpecs(collMetaSpecs(r, []string{"sem", "struct", "order", "notrace", "reopen"}))
+		// collisions under the DEFAULT digester (keys built to collide on the first level for every seed):
+		// deeper levels come from the pooled BLAKE3 digester
+		r.ExploreSpecs([]Spec{
+			{Name: "realcoll-T256", Kind: "map-small", T: 256, Keys: 1, Extra: map[string]int{"realcoll": 4}, Classes: []string{"t", "s60"}, Oracles: []string{"sem", "struct", "iter", "reopen"}},
+		})
 	}})
 }
 
